@@ -87,6 +87,7 @@ class Part:
         self.transitions = 0
         self.traces = 0
         self.states = set()
+        self.state_count = 0  # states counted in bulk (distinct by construction)
         self.outcomes = set()
         self.nontrivial = set()
         self.failures = []
@@ -104,6 +105,9 @@ class Part:
 
     def trace(self, n=1):
         self.traces += n
+
+    def nstates(self, n):
+        self.state_count += n
 
     def state(self, key):
         self.states.add(key if isinstance(key, (int, str)) else digest(key))
@@ -143,6 +147,7 @@ class Part:
         self.transitions += other.transitions
         self.traces += other.traces
         self.states |= other.states
+        self.state_count += other.state_count
         self.outcomes |= other.outcomes
         self.nontrivial |= other.nontrivial
         self.failures.extend(other.failures)
@@ -286,10 +291,10 @@ class Ctx(Part):
         os.makedirs(EVIDENCE_DIR, exist_ok=True)
         cov = {
             "evaluations": int(self.evaluations),
-            "distinct_nontrivial": int(len(self.nontrivial) or len(self.states)),
+            "distinct_nontrivial": int(len(self.nontrivial) or (len(self.states) + self.state_count)),
             "rule": self.rule,
             "samples": self.samples[:6] or ["(no sample recorded)"],
-            "states": int(len(self.states)),
+            "states": int(len(self.states) + self.state_count),
             "transitions": int(self.transitions),
             "traces_validated_against_impl": int(self.traces),
             "distinct_outcomes": int(len(self.outcomes)),
